@@ -343,8 +343,12 @@ func (e *env) runCase(dir string, t *tree, c Case) {
 			}
 		}
 		if pathDue && !pathSeen {
+			// exactly this and nothing else is filed under this signature: the
+			// first argument is `-`, further path arguments exist, none of them
+			// was opened (no line, no error message names them)
 			report(pre+"dash-first/path-arguments-not-read", "`-` followed by path arguments: only standard input was read, the path arguments were neither read nor refused (\"Each path argument ... is opened and read exactly once per mention\")")
-			return
+			// everything else is still checked, for standard input alone
+			exp.inputs = exp.inputs[:1]
 		}
 	}
 
